@@ -542,6 +542,15 @@ arRdItemArch(Archive ar)
 		idx, (ULong)strLength(ar->names));
 
 
+	/* The offset must lie inside a name table that has been read. */
+	if (!ar->names || idx >= strLength(ar->names)) {
+		comsgError(NULL, ALDOR_E_ArTruncated, arToString(ar));
+		arPosition(ar) = 0;
+		arItem(ar) = 0;
+		return 0;
+	}
+
+
 	/* Start a new character buffer */
 	buf = bufNew();
 
